@@ -153,7 +153,7 @@ func perSplitRule(c *Ctx, r *Rule) {
 				for _, cd := range condsFor(in.Block()) {
 					cd = normCond(cd)
 					if ic, ok := cd.V.(*ssa.Call); ok && isCall(ic, "(*gostatsd.MetricMap).IsEmpty") && cd.Sense {
-						if ex, ok := ic.Call.Args[0].(*ssa.Extract); ok && ex.Tuple == ssa.Value(next) && ex.Index == 2 {
+						if ex, ok := derefCell(ic.Call.Args[0]).(*ssa.Extract); ok && ex.Tuple == ssa.Value(next) && ex.Index == 2 {
 							okEmpty = true
 						}
 					}
@@ -162,22 +162,30 @@ func perSplitRule(c *Ctx, r *Rule) {
 			}
 		}
 	})
-	// the posting goroutine gets this iteration's map and tags
+	// the posting goroutine posts this iteration's map and tags (handed over as arguments or captured per iteration)
+	var postGo *ssa.Go
 	eachInstr(merging, func(in ssa.Instruction) {
-		g, ok := in.(*ssa.Go)
-		if !ok {
-			return
+		if g, ok := in.(*ssa.Go); ok {
+			if mc, ok := g.Call.Value.(*ssa.MakeClosure); ok && mc.Fn == ssa.Value(posting) {
+				postGo = g
+			}
+			if f, ok := g.Call.Value.(*ssa.Function); ok && f == posting {
+				postGo = g
+			}
 		}
-		a := g.Call.Args
-		if len(a) != 3 {
-			r.Fail("merging:go-args", in.Pos(), "posting goroutine is not started with (postId, map, tags)")
-			return
-		}
-		e1, ok1 := a[1].(*ssa.Extract)
-		e2, ok2 := a[2].(*ssa.Extract)
-		r.Check("merging:go-gets-this-iterations-map", ok1 && e1.Tuple == ssa.Value(next) && e1.Index == 2, in.Pos(), "map argument "+pathOf(a[1]))
-		r.Check("merging:go-gets-this-iterations-tags", ok2 && e2.Tuple == ssa.Value(next) && e2.Index == 1, in.Pos(), "header tags argument "+pathOf(a[2]))
 	})
+	if postGo == nil {
+		r.Fail("merging:go-args", merging.Pos(), "the go statement starting the posting goroutine was not found")
+	} else {
+		for _, cl := range callsTo(posting, "(*pkg/statsd.HttpForwarderHandlerV2).postMetrics") {
+			a := cl.Common().Args
+			o1, o2 := goValueOrigin(postGo, posting, a[2]), goValueOrigin(postGo, posting, a[3])
+			e1, ok1 := derefCell(o1).(*ssa.Extract)
+			e2, ok2 := derefCell(o2).(*ssa.Extract)
+			r.Check("merging:go-gets-this-iterations-map", ok1 && e1.Tuple == ssa.Value(next) && e1.Index == 2, cl.Pos(), "the map posted is "+pathOf(o1))
+			r.Check("merging:go-gets-this-iterations-tags", ok2 && e2.Tuple == ssa.Value(next) && e2.Index == 1, cl.Pos(), "the header tags posted are "+pathOf(o2))
+		}
+	}
 	// posting goroutine: postMetrics -> notifyFlush -> releaseSem, each exactly once
 	names := []string{"postMetrics", "notifyFlush", "releaseSem"}
 	res := runAutomaton(posting, 0, func(in ssa.Instruction) int {
@@ -208,10 +216,7 @@ func perSplitRule(c *Ctx, r *Rule) {
 	}
 	r.Check("posting:post-then-notify-then-release", m == 1<<3, posting.Pos(), fmt.Sprintf("states at exit %b (must be: all three done)", m))
 	// the posted map and tags are the goroutine's own parameters
-	for _, cl := range callsTo(posting, "(*pkg/statsd.HttpForwarderHandlerV2).postMetrics") {
-		a := cl.Common().Args
-		r.Check("posting:posts-own-map", paramIndex(posting, a[2]) == 1 && paramIndex(posting, a[3]) == 2, cl.Pos(), "postMetrics(ctx, metricMap, dynHeaderTags, postId) uses the goroutine's parameters")
-	}
+	r.Check("posting:posts-own-map", len(callsTo(posting, "(*pkg/statsd.HttpForwarderHandlerV2).postMetrics")) == 1, posting.Pos(), "one postMetrics call per posting goroutine (its map and tags are checked above)")
 	// notifyFlush forwards to the coordinator iff present
 	nf := w.Func("pkg/statsd", "(*HttpForwarderHandlerV2).notifyFlush")
 	if nf == nil {
@@ -427,8 +432,12 @@ func c15(c *Ctx) {
 		stopCond := func(b *ssa.BasicBlock) (val, known bool) {
 			for _, cd := range condsFor(b) {
 				cd = normCond(cd)
-				if bo := asBinOp(cd.V, token.EQL, token.NEQ); bo != nil && bo.X == ssa.Value(nb) {
-					if k, ok := bo.Y.(*ssa.Const); ok && (constName(k) == "Stop" || k.Value.ExactString() == "-1") {
+				if bo := asBinOp(cd.V, token.EQL, token.NEQ); bo != nil && (bo.X == ssa.Value(nb) || bo.Y == ssa.Value(nb)) {
+					other := bo.Y
+					if bo.Y == ssa.Value(nb) {
+						other = bo.X
+					}
+					if k, ok := other.(*ssa.Const); ok && (constName(k) == "Stop" || k.Value.ExactString() == "-1") {
 						v := cd.Sense
 						if bo.Op == token.NEQ {
 							v = !v
@@ -585,9 +594,23 @@ func c15(c *Ctx) {
 		okCap := 0
 		for _, fn := range []*ssa.Function{dr, fi} {
 			eachInstr(fn, func(in ssa.Instruction) {
-				if b, ok := in.(*ssa.BinOp); ok && b.Op == token.LSS {
-					if cl, ok := b.Y.(*ssa.Call); ok && isCall(cl, "builtin cap") && strings.HasSuffix(pathOf(cl.Call.Args[0]), ".maps") {
-						okCap++
+				if b, ok := in.(*ssa.BinOp); ok {
+					switch b.Op {
+					case token.LSS, token.GTR, token.LEQ, token.GEQ, token.NEQ, token.EQL:
+					default:
+						return
+					}
+					// a loop bound: the comparison decides a branch of a loop head
+					inLoop := false
+					for _, ref := range referrers(b) {
+						if ifi, ok := ref.(*ssa.If); ok && reachableFrom(ifi.Block())[ifi.Block()] {
+							inLoop = true
+						}
+					}
+					for _, side := range []ssa.Value{b.X, b.Y} {
+						if cl, ok := side.(*ssa.Call); ok && inLoop && isCall(cl, "builtin cap") && strings.HasSuffix(pathOf(cl.Call.Args[0]), ".maps") {
+							okCap++
+						}
 					}
 				}
 			})
@@ -599,8 +622,19 @@ func c15(c *Ctx) {
 			if rt, ok := in.(*ssa.Return); ok && isNilConst(rt.Results[0]) {
 				// a send loop over mms dominates this return
 				eachInstr(dr, func(in2 ssa.Instruction) {
-					if sd, ok := in2.(*ssa.Send); ok && strings.HasSuffix(pathOf(sd.Chan), ".maps") && strings.Contains(pathOf(sd.X), "rangeindex") {
-						okRestore = true
+					if sd, ok := in2.(*ssa.Send); ok && strings.HasSuffix(pathOf(sd.Chan), ".maps") {
+						// the value sent back is an element of the slice of taken maps, selected by a loop counter
+						if ld, ok := sd.X.(*ssa.UnOp); ok && ld.Op == token.MUL {
+							if ia, ok := ld.X.(*ssa.IndexAddr); ok {
+								idx := ia.Index
+								if b := asBinOp(idx, token.ADD); b != nil {
+									idx = b.X
+								}
+								if ph, ok := idx.(*ssa.Phi); ok && isLoopHead(ph.Block()) && reachableFrom(sd.Block())[rt.Block()] {
+									okRestore = true
+								}
+							}
+						}
 					}
 				})
 			}
@@ -1014,4 +1048,32 @@ func stripIfaceConv(v ssa.Value) ssa.Value {
 			return v
 		}
 	}
+}
+
+// derefCell: if v is a load of a local variable cell that is assigned exactly once, the assigned
+// value; otherwise v.  (A variable captured by a function literal lives in such a cell.)
+func derefCell(v ssa.Value) ssa.Value {
+	for i := 0; i < 4; i++ {
+		ld, ok := v.(*ssa.UnOp)
+		if !ok || ld.Op != token.MUL {
+			return v
+		}
+		cell := cellOf(ld.X)
+		if cell == nil {
+			return v
+		}
+		var val ssa.Value
+		n := 0
+		for _, ref := range referrers(cell) {
+			if st, ok := ref.(*ssa.Store); ok && st.Addr == ssa.Value(cell) {
+				n++
+				val = st.Val
+			}
+		}
+		if n != 1 {
+			return v
+		}
+		v = val
+	}
+	return v
 }
